@@ -50,7 +50,12 @@ var c19Programs = []string{
 	`s := Str.bear({shout: m{|| 1}}).new("zebraQuaggaA"); s != "okapi"`,
 	`k := Str.bear({tag: 2}).new("zebraQuaggaB"); %{k: 1}[k]`,
 	`"zebraQuaggaA := 5".evalEnv.keys@{|k| k.proto == Str}`,
+	// (known finding C19/shared-error-through-values) the abstract props of Either read as raw pairs
+	`Either.values[0]`,
 }
+
+// c19KnownValues: index of the program above
+const c19KnownValues = 27
 
 // run evaluates src in a FRESH scope of the shared world and returns (Inspect, stack trace).
 func c19Run(src string, a int64) (string, string, object.PanObject) {
@@ -89,6 +94,7 @@ func H_C19_frame() {
 	if rt.Param(1) >= 0 {
 		rt.Assume(bi == rt.Param(1) || bi == hi || bi == 3 || bi == 4 || bi == 14 || bi == 16 || bi == 17 || bi == 23 || bi == 26)
 	}
+	rt.Known("C19/shared-error-through-values", hi == c19KnownValues || bi == c19KnownValues)
 	a := int64(7) // results are compared by their printed form, so the input is concrete
 	world := c19WorldSnap()
 	nStore := len(Env.Store)
